@@ -68,18 +68,43 @@ theorem findings_iff (L : Int) :
     (units_keeps L findings_threshold_markdown ↔ L > 30) := by
   unfold units_keeps findings_threshold_text findings_threshold_markdown; grind
 
+/-! ## normal forms of the generated decisions
+
+Everything below uses the generated definitions only through these equivalences, which are proved
+by automation from whatever term the translator produced; a behaviour-preserving rewrite of the
+source changes the term but not the equivalences. -/
+
+theorem check_counts_hard_nf (v : Int) : check_counts_hard v ↔ (30 < v ∧ v ≤ 60) := by
+  unfold check_counts_hard; grind
+
+theorem check_counts_unmaintainable_nf (v : Int) : check_counts_unmaintainable v ↔ 60 < v := by
+  unfold check_counts_unmaintainable; grind
+
+theorem check_lists_nf (v : Int) : check_lists v ↔ 30 < v := by
+  unfold check_lists; grind
+
+theorem check_exit_code_nf (unm : Int) : check_exit_code unm = if unm > 0 then 1 else 0 := by
+  unfold check_exit_code; grind
+
+theorem check_prints_nf (quiet : Bool) (hard unm : Int) :
+    check_prints quiet hard unm ↔ (quiet = false ∨ hard > 0 ∨ unm > 0) := by
+  unfold check_prints; cases quiet <;> grind
+
+theorem check_summary_count_nf (hard unm : Int) : check_summary_count hard unm = hard + unm := by
+  unfold check_summary_count; grind
+
 /-! ## the check command on any number of files with any lengths -/
 
 theorem mem_fileRisks (ms : List Int) (v : Int) : v ∈ fileRisks ms ↔ v ∈ ms ∧ v > 30 := by
   unfold fileRisks
   rw [List.mem_mergeSort, List.mem_filter]
-  simp [check_lists]
+  simp [check_lists_nf]
 
 /-- the functions listed for a file are exactly those with `L > 30` (as a multiset), ... -/
 theorem fileRisks_perm (ms : List Int) : (fileRisks ms).Perm (ms.filter (fun v => decide (v > 30))) := by
   unfold fileRisks
   have : (ms.filter (fun v => decide (check_lists v))) = ms.filter (fun v => decide (v > 30)) := by
-    apply List.filter_congr; intro v _; simp [check_lists]
+    apply List.filter_congr; intro v _; simp [check_lists_nf]
   rw [this]
   exact List.mergeSort_perm _ _
 
@@ -137,13 +162,13 @@ theorem exit_code_iff (quiet : Bool) (files : List (List Int)) :
       simp only [List.mem_flatten, List.mem_map] at hv
       obtain ⟨l, ⟨ms, hms, rfl⟩, hvl⟩ := hv
       have := (mem_fileRisks ms v).1 hvl
-      exact ⟨ms, hms, v, this.1, by simpa [check_counts_unmaintainable] using hp⟩
+      exact ⟨ms, hms, v, this.1, by simpa [check_counts_unmaintainable_nf] using hp⟩
     · rintro ⟨ms, hms, L, hL, h60⟩
-      refine ⟨L, ?_, by simpa [check_counts_unmaintainable] using h60⟩
+      refine ⟨L, ?_, by simpa [check_counts_unmaintainable_nf] using h60⟩
       simp only [List.mem_flatten, List.mem_map]
       exact ⟨fileRisks ms, ⟨ms, hms, rfl⟩, (mem_fileRisks ms L).2 ⟨hL, by omega⟩⟩
-  unfold checkCommand check_exit_code
-  simp only
+  unfold checkCommand
+  simp only [check_exit_code_nf]
   constructor
   · rw [← key]; split <;> simp_all <;> omega
   · split <;> simp
@@ -156,8 +181,8 @@ theorem listed_eq (quiet : Bool) (files : List (List Int)) :
 theorem summary_count_eq (quiet : Bool) (files : List (List Int)) :
     (checkCommand quiet files).count = (((checkCommand quiet files).listed.flatten.length : Nat) : Int) := by
   have hs := checkAll_spec files
-  unfold checkCommand check_summary_count
-  simp only
+  unfold checkCommand
+  simp only [check_summary_count_nf]
   rw [hs.1, hs.2.1, hs.2.2]
   generalize hl : (files.map fileRisks).flatten = l
   have hall : ∀ v ∈ l, v > 30 := by
@@ -172,17 +197,20 @@ theorem summary_count_eq (quiet : Bool) (files : List (List Int)) :
   | cons a t ih =>
     have ha := hall a (by simp)
     have := ih (fun v hv => hall v (by simp [hv]))
-    simp only [check_counts_hard, check_counts_unmaintainable] at this ⊢
     by_cases h60 : a ≤ 60
-    · have h1 : decide (30 < a ∧ a ≤ 60) = true := by simp; omega
-      have h2 : decide (a > 60) = false := by simp; omega
-      rw [List.filter_cons_of_pos (p := fun v => decide (30 < v ∧ v ≤ 60)) h1,
-        List.filter_cons_of_neg (p := fun v => decide (v > 60)) (by simp [h2])]
+    · have h1 : decide (check_counts_hard a) = true := by
+        rw [decide_eq_true_eq, check_counts_hard_nf]; omega
+      have h2 : ¬ decide (check_counts_unmaintainable a) = true := by
+        rw [decide_eq_true_eq, check_counts_unmaintainable_nf]; omega
+      rw [List.filter_cons_of_pos (p := fun v => decide (check_counts_hard v)) h1,
+        List.filter_cons_of_neg (p := fun v => decide (check_counts_unmaintainable v)) h2]
       simp only [List.length_cons]; push_cast; omega
-    · have h1 : decide (30 < a ∧ a ≤ 60) = false := by simp; omega
-      have h2 : decide (a > 60) = true := by simp; omega
-      rw [List.filter_cons_of_neg (p := fun v => decide (30 < v ∧ v ≤ 60)) (by simp [h1]),
-        List.filter_cons_of_pos (p := fun v => decide (v > 60)) h2]
+    · have h1 : ¬ decide (check_counts_hard a) = true := by
+        rw [decide_eq_true_eq, check_counts_hard_nf]; omega
+      have h2 : decide (check_counts_unmaintainable a) = true := by
+        rw [decide_eq_true_eq, check_counts_unmaintainable_nf]; omega
+      rw [List.filter_cons_of_neg (p := fun v => decide (check_counts_hard v)) h1,
+        List.filter_cons_of_pos (p := fun v => decide (check_counts_unmaintainable v)) h2]
       simp only [List.length_cons]; push_cast; omega
 
 /-- under `--quiet` nothing is printed exactly when no function is listed; without it the
@@ -193,16 +221,16 @@ theorem quiet_iff (quiet : Bool) (files : List (List Int)) :
   have hs := checkAll_spec files
   have hnn1 : 0 ≤ (checkAll files).hard := by rw [hs.2.1]; omega
   have hnn2 : 0 ≤ (checkAll files).unm := by rw [hs.2.2]; omega
-  unfold checkCommand check_summary_count at hc
-  simp only at hc
-  unfold checkCommand check_prints
-  simp only [decide_eq_false_iff_not]
+  unfold checkCommand at hc
+  simp only [check_summary_count_nf] at hc
+  unfold checkCommand
+  simp only [decide_eq_false_iff_not, check_prints_nf]
   constructor
   · intro h
     have hq : quiet = true := by
       cases quiet with
       | true => rfl
-      | false => exact absurd (Or.inl (by simp)) h
+      | false => exact absurd (Or.inl rfl) h
     refine ⟨hq, ?_⟩
     have : ¬ ((checkAll files).hard > 0) ∧ ¬ ((checkAll files).unm > 0) := ⟨fun h1 => h (Or.inr (Or.inl h1)), fun h1 => h (Or.inr (Or.inr h1))⟩
     have hz : ((checkAll files).files.flatten.length : Int) = 0 := by omega
@@ -211,7 +239,7 @@ theorem quiet_iff (quiet : Bool) (files : List (List Int)) :
     rw [hnil] at hc
     simp at hc
     rintro (h | h | h)
-    · exact h hq
+    · rw [hq] at h; exact absurd h (by decide)
     · omega
     · omega
 
